@@ -57,3 +57,31 @@ def replay_build_packet(inp):
     why = check_packet(packet, payload, bsize, etm or aead)
     return {"violates": bool(why), "detail": why, "inputs": {"payload_len": len(payload), "bsize": bsize, "etm": etm,
                                                               "aead": aead}}
+
+
+def replay_send_message(inp):
+    """seeded search: the model's payload length against every real MAC in Transport._mac_info and every
+    framing mode, with an identity 'cipher' so that the plaintext framing is visible on the wire"""
+    from paramiko.message import Message
+    from paramiko.transport import Transport
+    n = inp.get("data.packet.buf", {"len": 5}).get("len", 5) if isinstance(inp.get("data.packet.buf"), dict) else 5
+    n = max(1, min(int(n), 70000))
+    bad = []
+    lens = sorted(set([n, 1, 2, 7, 8, 9, 15, 16, 17, 255, 256]))
+    for name, info in Transport._mac_info.items():
+        for mode in ("classic", "etm"):
+            for ln in lens:
+                sock = _Sock()
+                p = Packetizer(sock)
+                p.set_outbound_cipher(_Engine(), 16, info["class"], info["size"], b"k" * 20, sdctr=False,
+                                      etm=(mode == "etm"))
+                m = Message()
+                m.add_bytes(bytes([94]) + b"x" * (ln - 1))
+                p.send_message(m)
+                w = sock.out
+                plain_len = 4 + struct.unpack(">I", w[:4])[0]
+                if len(w) != plain_len + info["size"]:
+                    bad.append({"mac": name, "mode": mode, "payload": ln, "wire": len(w),
+                                "expected": plain_len + info["size"]})
+                    break
+    return {"violates": bool(bad), "detail": bad[:4]}
